@@ -10,6 +10,8 @@ from vf.effects import note, Patch
 from pony import orm
 from pony.orm import core
 
+from contracts import c32_reads as RD
+
 META = dict(
     level='proof',
     explanation='finite domain enumerated completely on the real code: every listed public operation, on objects of every status left over from sessions '
@@ -228,4 +230,8 @@ CONTRACTS = [
     Contract('reads_after_session_end', ['pony.orm.core:Attribute.__get__', 'pony.orm.core:Attribute.get', 'pony.orm.core:SetInstance.__iter__'],
              _read_configs, _read_case, [('loaded_values_readable_unless_strict', _read_spec), ('reading_modifies_nothing', _read_does_not_modify)],
              allowed_exc=(core.DatabaseSessionIsOver,)),
+    Contract('reads_that_need_the_database', ['pony.orm.core:SetInstance.is_empty', 'pony.orm.core:SetInstance.count', 'pony.orm.core:SetInstance.__len__', 'pony.orm.core:SetInstance.__iter__',
+                                              'pony.orm.core:SetInstance.__contains__', 'pony.orm.core:SetInstance.copy', 'pony.orm.core:Set.load', 'pony.orm.core:Attribute.load',
+                                              'pony.orm.core:Entity.to_dict'], RD.configs, RD.case,
+             [('refused_without_a_statement_and_without_touching_the_snapshot', RD.spec)], level='bounded', bound=RD.BOUND),
 ]
